@@ -13,6 +13,7 @@ mod wrap;
 mod col;
 mod misc;
 mod stroke;
+mod rrtw;
 mod json;
 
 pub struct Found {
@@ -70,6 +71,7 @@ fn search(prop: &str, seed: u64, obls: &[String]) -> Option<Found> {
         "C09" => wrap::search("c09", seed, 20000),
         "C15" => misc::search_c15(seed, 3000),
         "C12" => stroke::search(seed, 40),
+        "C13" => rrtw::search(seed, 60),
         "C17" => misc::search_c17(seed, 20000),
         "C10" => col::search("c10", seed, 300),
         "C11" => col::search("c11", seed, 150),
@@ -87,6 +89,7 @@ fn replay(prop: &str, kind: &str, case: &str) -> Option<Found> {
         "C10" | "C11" | "C14" => col::replay(kind, case),
         "C17" => misc::replay_c17(case),
         "C12" => stroke::replay(case),
+        "C13" => rrtw::replay(case),
         "C15" => misc::replay_c15(case),
         _ => None,
     }
